@@ -6,8 +6,8 @@ import (
 	"strconv"
 	"strings"
 
-	"verifharness/internal/gen"
-	"verifharness/internal/h"
+	"verifharness/pkg/gen"
+	"verifharness/pkg/h"
 
 	"github.com/dunglas/mercure"
 )
